@@ -710,6 +710,9 @@ def main(run):
     res = run.explore('slab', cs, run_case, budget_s=600, chunksize=1)
     sw = sweep_cases(run.tier)
     res2 = run.explore('sweep', sw, run_sweep, budget_s=600, chunksize=1)
+    # the csv dump of this property's field: every row is the recorded field of that assembly at that plane
+    from . import reports as _rep
+    run.explore('report-dumps', _rep.cases_dumps(run.tier), _rep.run_dumps_C11, budget_s=300)
     # vacuity
     ex = run.extra
     need = [('states_by_role', 'single'), ('states_by_role', 'inner'), ('states_by_role', 'middle'),
@@ -735,6 +738,9 @@ def main(run):
 
 
 def replay(body):
+    if str((body.get('scenario') or {}).get('probe', '')).startswith('report-'):
+        from . import reports
+        return reports.replay(body)
     sc = dict(body['scenario'])
     if 'sweep' in sc:
         c = {k: sc[k] for k in ('sweep', 'design', 'wall', 'L')}
